@@ -22,9 +22,10 @@ TRUSTED = ['threaded code: the real DataProviderServer / SubscriptionManager / _
 ASSUMPTIONS = ['per-item request histories alternate SUB/USB starting with SUB (as the protocol prescribes); request ids are distinct',
                'adapter calls return or raise an Exception (a call that never returns is outside the property)']
 
-SNAP = [True, False, False, ('raise', 'RuntimeError')]
-SUB = ['ret', 'ret', 'ret', ('raise', 'SubscribeError'), ('raise', 'FailureError'), ('raise', 'RuntimeError'), ('raise', 'KeyError')]
-USB = ['ret', 'ret', 'ret', ('raise', 'SubscribeError'), ('raise', 'RuntimeError')]
+SNAP = [True, False, False, ('raise', 'RuntimeError'), ('raise', 'SubscribeError', 'nonstr')]
+SUB = ['ret', 'ret', 'ret', ('raise', 'SubscribeError'), ('raise', 'FailureError'), ('raise', 'RuntimeError'), ('raise', 'KeyError'),
+       ('raise', 'SubscribeError', 'nonstr'), ('raise', 'FailureError', 'nonstr')]
+USB = ['ret', 'ret', 'ret', ('raise', 'SubscribeError'), ('raise', 'RuntimeError'), ('raise', 'SubscribeError', 'nonstr')]
 KINDS = ['upd', 'upd', 'eos', 'cls']
 
 
